@@ -212,6 +212,19 @@ func TestVF_HandlesNFS(t *testing.T) {
 			emitIssue(proc, p, id)
 			use(id, true)
 		}
+		// madeAt: the path of the last successful backend call that makes an object called name
+		madeAt := func(name string) string {
+			p := ""
+			for _, c := range fs.TakeCalls() {
+				if c.Err != "" || path.Base(c.Path) != name {
+					continue
+				}
+				if c.Op == "Mkdir" || c.Op == "Symlink" || (c.Op == "OpenFile" && c.Flags&os.O_CREATE != 0) {
+					p = path.Clean("/" + c.Path)
+				}
+			}
+			return p
+		}
 		pathOfObj := func(res *vfResult, key string) string {
 			fid := vfU(vfGet(res.Val, key, "fileid"))
 			return known[fid]
@@ -284,6 +297,7 @@ func TestVF_HandlesNFS(t *testing.T) {
 				name := "n" + string(rune('0'+created%10)) + string(rune('a'+created/10%26))
 				var rep *vfNFSReply
 				var proc string
+				fs.TakeCalls()
 				switch r.Intn(3) {
 				case 0:
 					proc = "CREATE"
@@ -297,13 +311,9 @@ func TestVF_HandlesNFS(t *testing.T) {
 				}
 				if rep.OK() {
 					id, ok := vfFH(vfGet(rep.Res.Val, "object"))
-					// the new object's path: scan the backend for the name (names are unique)
-					p := ""
-					for _, nd := range fs.Snapshot(0) {
-						if len(nd.P) > 0 && nd.P[len(nd.P)-1] == name {
-							p = "/" + path.Join(nd.P...)
-						}
-					}
+					// the new object's path: where the backend was told to make it (the same name
+					// may exist in another directory)
+					p := madeAt(name)
 					if ok && p != "" {
 						add(p)
 						noteReuse(id)
@@ -316,6 +326,7 @@ func TestVF_HandlesNFS(t *testing.T) {
 				env.Do(NFSPROC3_RMDIR, vfArgsDirOp(dirH, name), vfRoot)
 				var rep *vfNFSReply
 				proc := "MKDIR"
+				fs.TakeCalls()
 				if r.Intn(2) == 0 {
 					rep = env.Do(NFSPROC3_MKDIR, vfArgsMkdir(dirH, name, vfSattr{Mode: u32p(0755)}), vfRoot)
 				} else {
@@ -324,12 +335,7 @@ func TestVF_HandlesNFS(t *testing.T) {
 				}
 				if rep.OK() {
 					id, ok := vfFH(vfGet(rep.Res.Val, "object"))
-					p := ""
-					for _, nd := range fs.Snapshot(0) {
-						if len(nd.P) > 0 && nd.P[len(nd.P)-1] == name {
-							p = "/" + path.Join(nd.P...)
-						}
-					}
+					p := madeAt(name)
 					if ok && p != "" {
 						add(p)
 						noteReuse(id)
